@@ -68,11 +68,15 @@ impl NonTty {
         NonTty { path, buf: Arc::new(Mutex::new(vec![])) }
     }
     fn target(&self) -> ProgressDrawTarget {
+        self.target_hz(20)
+    }
+    /// `ProgressDrawTarget::term(<not a tty>, hz)`; hz = 0 is documented to panic
+    fn target_hz(&self, hz: u8) -> ProgressDrawTarget {
         let w = RecW { file: std::fs::OpenOptions::new().write(true).open(&self.path).unwrap(), buf: self.buf.clone() };
         let r = RecR(std::fs::File::open(&self.path).unwrap());
         let term = console::Term::read_write_pair(r, w);
         assert!(!term.is_term(), "a regular file must not be a tty");
-        ProgressDrawTarget::term(term, 20)
+        ProgressDrawTarget::term(term, hz)
     }
     fn written(&self) -> usize {
         self.buf.lock().unwrap().len() + std::fs::metadata(&self.path).map(|m| m.len() as usize).unwrap_or(0)
@@ -431,7 +435,7 @@ fn main() {
     let a = args();
     let mut s = Session::new(&a, "C06", COQ_HEADER, COQ_CASE_TY, COQ_CHECKER);
     s.shard_size = 150;
-    s.rule = "histories of 5-35 ops over 1-3 bars drawing on every public op (tick/inc/dec/set_position/length ops/set_message/set_prefix/set_style/println/suspend/reset*/finish variants/finish_using_style/force_draw/set_tab_width/drop/add/insert*/remove, mp.println/suspend/clear/set_alignment), in four configurations: all targets ProgressDrawTarget::hidden(); members of a hidden MultiProgress; bars removed from a visible MultiProgress; mixed hidden/visible. Each history also runs on a visible twin (hidden targets replaced by terminals) and, for the first two configurations, with a console::Term that is not a tty (bars resp. the MultiProgress). Oracle: calls with a hidden subject make no TermLike call / write no byte; getters equal the twin's after every op; is_hidden(). non-trivial = at least 5 ops with a hidden subject and the twin emitted calls; distinct = distinct case text".into();
+    s.rule = "histories of 5-35 ops over 1-3 bars drawing on every public op (tick/inc/dec/set_position/length ops/set_message/set_prefix/set_style/println/suspend/reset*/finish variants/finish_using_style/force_draw/set_tab_width/drop/add/insert*/remove, mp.println/suspend/clear/set_alignment), in four configurations: all targets ProgressDrawTarget::hidden(); members of a hidden MultiProgress; bars removed from a visible MultiProgress; mixed hidden/visible. Each history also runs on a visible twin (hidden targets replaced by terminals) and, for the first two configurations, with a console::Term that is not a tty (bars resp. the MultiProgress), also constructed with refresh rate 0 (documented panic at construction, or as silent as any other rate). Oracle: calls with a hidden subject make no TermLike call / write no byte; getters equal the twin's after every op; is_hidden(). non-trivial = at least 5 ops with a hidden subject and the twin emitted calls; distinct = distinct case text".into();
     let mut r = Rng::new(a.seed);
     let n = if a.thorough { 4000 } else if a.extended { 2500 } else { 400 };
     let nontty = NonTty::new(&a.out);
@@ -494,11 +498,32 @@ fn main() {
         // ---- targets a Case cannot express: a Term that is not a tty, is_hidden()
         if matches!(way, Way::HiddenTarget | Way::HiddenMulti) {
             let expected_closure: Vec<TOp> = case.ops.iter().flat_map(|(_, o)| closure_lines(o)).collect();
-            for variant in 0..2 {
-                // variant 0: hidden() everywhere (checks is_hidden()); variant 1: the non-tty Term
+            for variant in 0..3 {
+                // variant 0: hidden() everywhere (checks is_hidden()); variant 1: the non-tty Term;
+                // variant 2: the non-tty Term with refresh rate 0 - documented to panic at
+                // construction; if it constructs, it must be as silent as any other rate
+                if variant == 2 {
+                    if i >= 80 {
+                        continue;
+                    }
+                    match catch(|| nontty.target_hz(0)) {
+                        Err(_) => {
+                            s.count("rate0:panics-at-construction(documented)");
+                            s.oracle_only(format!("rate0 construction {}", desc), false);
+                            continue;
+                        }
+                        Ok(_) => s.count("rate0:constructs"),
+                    }
+                }
                 let cs = Spy::new(case.w, case.h);
                 let before = nontty.written();
-                let res = if way == Way::HiddenTarget {
+                let res = if variant == 2 {
+                    if way == Way::HiddenTarget {
+                        run_manual(&case, &|_| nontty.target_hz(0), nontty.target_hz(0), &cs, true)
+                    } else {
+                        run_manual(&case, &|_| ProgressDrawTarget::hidden(), nontty.target_hz(0), &cs, true)
+                    }
+                } else if way == Way::HiddenTarget {
                     if variant == 0 {
                         run_manual(&case, &|_| ProgressDrawTarget::hidden(), ProgressDrawTarget::hidden(), &cs, true)
                     } else {
@@ -509,9 +534,22 @@ fn main() {
                 } else {
                     run_manual(&case, &|_| ProgressDrawTarget::hidden(), nontty.target(), &cs, true)
                 };
-                let vdesc = format!("{}{} {}", if variant == 1 { "non-tty " } else { "is_hidden " }, way_name(way), desc);
+                let vdesc = format!("{}{} {}", ["is_hidden ", "non-tty ", "non-tty rate0 "][variant], way_name(way), desc);
+                if variant == 2 && nontty.written() != before {
+                    // (also when the run ended early because is_hidden() was false)
+                    s.fail(
+                        "non-tty-bytes-written:rate0",
+                        format!("{} bytes/flushes reached a writer that is not a tty through a target built with refresh rate 0", nontty.written() - before),
+                        vdesc.clone(),
+                    );
+                    nontty.buf.lock().unwrap().clear();
+                }
                 match res {
-                    Err(e) => s.fail(if e.contains("is_hidden") { "is-hidden-false" } else { "panic" }, e, vdesc.clone()),
+                    Err(e) => s.fail(
+                        &format!("{}{}", if e.contains("is_hidden") { "is-hidden-false" } else { "panic" }, if variant == 2 { ":rate0" } else { "" }),
+                        e,
+                        vdesc.clone(),
+                    ),
                     Ok(gs) => {
                         if nontty.written() != before {
                             s.fail(
@@ -536,10 +574,31 @@ fn main() {
                         }
                     }
                 }
-                s.count(if variant == 1 { "runs:non-tty" } else { "runs:is_hidden" });
+                s.count(["runs:is_hidden", "runs:non-tty", "runs:non-tty-rate0"][variant]);
                 s.oracle_only(vdesc, hidden_subject_ops >= 5);
             }
         }
+    }
+    // the other public constructors that take a refresh rate, with rate 0: a panic at construction
+    // (documented) or a target that is hidden whenever the stream is not a tty
+    for (name, is_tty, mk) in [
+        ("stdout_with_hz(0)", console::Term::stdout().is_term(), (|| ProgressDrawTarget::stdout_with_hz(0)) as fn() -> ProgressDrawTarget),
+        ("stderr_with_hz(0)", console::Term::stderr().is_term(), (|| ProgressDrawTarget::stderr_with_hz(0)) as fn() -> ProgressDrawTarget),
+    ] {
+        match catch(mk) {
+            Err(_) => s.count(&format!("rate0:{name}:panics-at-construction(documented)")),
+            Ok(t) => {
+                s.count(&format!("rate0:{name}:constructs"));
+                if !is_tty && !t.is_hidden() {
+                    s.fail(
+                        "non-tty-bytes-written:rate0",
+                        format!("ProgressDrawTarget::{name} on a stream that is not a tty is not hidden: it would draw into redirected output"),
+                        format!("constructor probe {name}"),
+                    );
+                }
+            }
+        }
+        s.oracle_only(format!("constructor probe {name} (stream is a tty: {is_tty})"), !is_tty);
     }
     let _ = std::fs::remove_file(&nontty.path);
     tab_twins(&mut s, &mut r, if a.thorough { 1500 } else { 200 });
